@@ -146,4 +146,42 @@ HAND = [
             "/p/full.ts": 'export type Full = { a: string; b: number; c: boolean; d?: null };\n',
         },
     },
+    {
+        "id": "h_nested_node_modules",
+        "files": {
+            "/p/entry.ts": E + 'import { Account } from "./a/account";\nimport { Invoice } from "./b/invoice";\nparse.buildParsers<{ Account: Account; Invoice: Invoice }>();\n',
+            "/p/a/account.ts": 'import { Id } from "ids";\nexport type Account = { id: Id; owner: string };\n',
+            "/p/a/node_modules/ids/index.ts": 'export type Id = string;\n',
+            "/p/b/invoice.ts": 'import { Id } from "ids";\nexport type Invoice = { id: Id; total: number };\n',
+            "/p/b/node_modules/ids/index.ts": 'export type Id = number;\n',
+        },
+    },
+    {
+        "id": "h_same_text_two_dirs",
+        "files": {
+            "/p/entry.ts": E + 'import { Item as CartItem } from "./cart";\nimport { Item as WishItem } from "./wishlist";\nparse.buildParsers<{ CartItem: CartItem; WishItem: WishItem }>();\n',
+            "/p/cart/index.ts": 'export * from "./types";\n',
+            "/p/cart/types.ts": 'export type Item = { sku: string; quantity: number };\n',
+            "/p/wishlist/index.ts": 'export * from "./types";\n',
+            "/p/wishlist/types.ts": 'export type Item = { sku: string; note: string };\n',
+        },
+    },
+    {
+        "id": "h_dollar_names",
+        "files": {
+            "/p/entry.ts": E + 'type Money$$ = { amount: number; currency: string };\ntype $Wrapper = { m: Money$$; list: Money$$[] };\ntype Tree$$1 = { v: number; kids: Tree$$1[] };\nparse.buildParsers<{ Money: Money$$; Wrapper: $Wrapper; Tree: Tree$$1 }>();\n',
+        },
+    },
+    {
+        "id": "h_two_discriminators",
+        "files": {
+            "/p/entry.ts": E + 'type Shape = { kind: "circle"; type: "round"; r: number } | { kind: "square"; type: "angular"; side: number };\ntype Holder = { shapes: Shape[]; first: Shape };\nparse.buildParsers<{ Shape: Shape; Holder: Holder }>();\n',
+        },
+    },
+    {
+        "id": "h_recursive_type_query",
+        "files": {
+            "/p/entry.ts": E + 'type Tree = { value: string; left: Tree | null; right: Tree | null };\nexport type Child = Exclude<Tree["left"], null>;\nexport type Keys = keyof Tree;\nparse.buildParsers<{ Child: Child; Keys: Keys; Tree: Tree }>();\n',
+        },
+    },
 ]
